@@ -35,7 +35,7 @@ TIMEOUT = {"quick": 900, "thorough": 3600}
 DECIDING = ["history:call_equals_fresh", "history:config_unchanged", "history:args_unchanged", "immut:args_unchanged", "immut:layout_accepted", "repeat:same_arguments_same_result", "repeat:after_inplace_update_equals_fresh",
             "seed:same_seed_same_result", "seed:different_seed_different_result", "repeat:deterministic",
             "styles:identical", "styles:all_calls_ran"]
-MUST_REACH = ["structure:decoupled", "structure:zero", "size_variant:1", "size_variant:2", "history:mixed_sizes", "history:fresh_table_from_fresh_processes", "styles:compared", "layout:readonly", "layout:strided"]
+MUST_REACH = ["long_history:disturbing_call_raised:BAD_SHAPE", "long_history:disturbing_call_returned:BIG", "structure:decoupled", "structure:zero", "size_variant:1", "size_variant:2", "history:mixed_sizes", "history:fresh_table_from_fresh_processes", "styles:compared", "layout:readonly", "layout:strided"]
 
 # ---- (a) histories ---------------------------------------------------------------------------
 
@@ -90,6 +90,34 @@ def _pool_for(kind, npool):
     return _pool(kind, npool)
 
 
+def _big_problem(kind):
+    rng = np.random.default_rng(99)
+    if kind == "linsys":
+        A = refq.randq(rng, 11, 11) + 3.0 * refq.eye(11)
+        return (A, refq.randq(rng, 11, 1))
+    if kind == "deep":
+        return (refq.randq(rng, 9, 4), [4, 3, 9])
+    if kind == "pinv_any":
+        return (refq.randq(rng, 9, 12),)
+    return (refq.randq(rng, 13, 9),)
+
+
+def _bad_problem(kind, tok, good):
+    """Arguments outside the routine's domain (most of them raise; whatever happens, later calls must not be affected)."""
+    rng = np.random.default_rng(7)
+    if tok == "BAD_NONE":
+        return tuple(None for _ in good)
+    if tok == "BAD_TYPE":
+        return tuple((np.asarray(refq.fa(a))[..., 0].copy() if isinstance(a, np.ndarray) else a) for a in good)     # real float arrays
+    # BAD_SHAPE
+    if kind == "linsys":
+        A = refq.randq(rng, 3, 3) + 2.0 * refq.eye(3)
+        return (A, refq.randq(rng, 5, 1))                      # right-hand side of the wrong length
+    if kind == "deep":
+        return (refq.randq(rng, 3, 2), [5, 2, 3])              # layer sizes that do not match the data
+    return (refq.randq(rng, 4, 1)[:, 0],)                      # 1-D array
+
+
 def _strip(name, res):
     """Result with wall-clock parts removed (digest input)."""
     if name == "HigherOrderNS" and isinstance(res, tuple) and len(res) == 3:
@@ -113,7 +141,8 @@ def cases(tier, seed):
     ncfg = 15
     for ci in range(ncfg):
         seqs = list(itertools.product(range(npool), repeat=3))
-        out.append({"kind": "history", "cls": "history", "cfg": ci, "npool": npool, "seqs": [list(s) for s in seqs], "seed": seed})
+        out.append({"kind": "history", "cls": "history", "cfg": ci, "npool": npool, "seqs": [list(s) for s in seqs], "seed": seed,
+                    "nlong": 12 if tier == "quick" else 60})
     for lay in gen.LAYOUTS:
         for size in (None, 1, 2, 3, 5):
             out.append({"kind": "immut", "cls": "immut:" + lay, "layout": lay, "size": size, "seed": seed})
@@ -205,6 +234,44 @@ def _history(spec, ctx, R):
             changed = sorted(k2 for k2 in set(cfg0) | set(cfg1) if cfg0.get(k2) != cfg1.get(k2))
             ctx.check("history:config_unchanged", not changed, site=name, tags=["attrs:" + ",".join(changed)] if changed else [],
                       detail={**det, "changed_attributes": changed})
+    # ---- longer histories with disturbing calls in between: calls that raise (arguments outside the domain), a much larger problem, the
+    # same problem many times; every in-pool call is still judged against the fresh-process table
+    rng = gen.rng_for(spec["seed"], "c14long", spec["cfg"])
+    big = _big_problem(pkind)
+    for h in range(spec.get("nlong", 0)):
+        L = int(rng.integers(4, 8))
+        seq = [int(rng.integers(0, len(pool))) if rng.random() < 0.6 else str(rng.choice(["BAD_SHAPE", "BAD_TYPE", "BIG", "BAD_NONE"])) for _ in range(L)]
+        if not any(isinstance(t, str) for t in seq):
+            seq[int(rng.integers(0, L - 1))] = "BAD_SHAPE"
+        seq.append(int(rng.integers(0, len(pool))))
+        obj = factory()
+        cfg0 = _state_digest(obj)
+        ctx.distinct(name, "long", seq)
+        raised_before = False
+        for k, tok in enumerate(seq):
+            if isinstance(tok, str):
+                prob = big if tok == "BIG" else _bad_problem(pkind, tok, pool[0])
+                try:
+                    with np.errstate(all="ignore"), repo.quiet():
+                        _call(obj, method, prob, S0)
+                    ctx.hit("long_history:disturbing_call_returned:" + tok)
+                except Exception as e:
+                    raised_before = True
+                    ctx.hit("long_history:disturbing_call_raised:" + tok)
+                continue
+            pi = tok
+            try:
+                res, args_same = _call(obj, method, pool[pi], S0 + pi)
+                got = ("ok", battery.result_digest(_strip(name, res)))
+            except Exception as e:
+                got = ("raise", type(e).__name__)
+            tags = ["long_history"] + (["after_raising_call"] if raised_before else [])
+            ctx.check("history:call_equals_fresh", got == fresh[pi], site=name, tags=tags,
+                      detail={"config": name, "history": [str(t) for t in seq], "call_index": k, "problem": pi, "got": got, "fresh": fresh[pi]})
+            cfg1 = _state_digest(obj)
+            changed = sorted(k2 for k2 in set(cfg0) | set(cfg1) if cfg0.get(k2) != cfg1.get(k2))
+            ctx.check("history:config_unchanged", not changed, site=name, tags=["long_history"] + (["attrs:" + ",".join(changed)] if changed else []),
+                      detail={"history": [str(t) for t in seq], "changed_attributes": changed})
     if spec["seqs"]:
         ctx.sample({"config": name, "pool_shapes": [list(p[0].shape) for p in pool], "histories": "every sequence of 3 problems",
                     "fresh_table": {str(k): v for k, v in fresh.items()}})
